@@ -29,6 +29,9 @@ type c15Case struct {
 	// Disabled: the integration(s) holding the substituted leaf additionally carry enabled:false (validation
 	// must not depend on it: Migrate/DDL cover every file integration, the dashboard stores the submission)
 	Disabled bool `json:"disabled,omitempty"`
+	// Dup 1..8 (mode dash-dup): the member holding the leaf is submitted twice, under the canonical key and
+	// under a case variant, hostile value in one of them (see dupVariant)
+	Dup int `json:"dup,omitempty"`
 }
 
 func init() {
@@ -36,7 +39,7 @@ func init() {
 		ID:        "C15",
 		Level:     "exploration",
 		Technique: "exhaustive single-position substitution of hostile markers into every string leaf of a maximal configuration tree (file start-up path and real dashboard handlers) and into chain data, each variant executed through the real pipeline against the fake Postgres; oracle = marker search over every SQL text received",
-		Rule: "maximal configuration (3 sources, 3 integrations: log with user unique/index/notification, log with nested tuple components carrying column/filter/filter_ref, trace on a shared table); every string leaf (incl. strings in arrays) x 9 markers (' \" ; ) ( -- $$ \\ .) as the whole value, and with the metacharacter as FIRST character, as LAST character and alone on identifier-like leaves [thorough: on all leaves, plus suffix/prefix of the benign value]; every substitution inside an integration also with that integration enabled:false; unique/index entries additionally as \"<column> <marker>\" and \"<column> desc <marker>\" (only ASC/DESC may follow the single space); " +
+		Rule: "maximal configuration (3 sources, 3 integrations: log with user unique/index/notification, log with nested tuple components carrying column/filter/filter_ref, trace on a shared table); every string leaf (incl. strings in arrays) x 9 markers (' \" ; ) ( -- $$ \\ .) as the whole value, and with the metacharacter as FIRST character, as LAST character and alone on identifier-like leaves [thorough: on all leaves, plus suffix/prefix of the benign value]; every substitution inside an integration also with that integration enabled:false; dashboard documents that carry the member of an identifier-like leaf TWICE (canonical key and a Capitalised / UPPER case variant, hostile value in either, either order: 8 variants) followed by the reload of the stored row (Restart -> config.Integrations -> tasks); unique/index entries additionally as \"<column> <marker>\" and \"<column> desc <marker>\" (only ASC/DESC may follow the single space); " +
 			"FILE: decode -> ValidateFix -> Schema+Migrate -> loadTasks -> 5 rounds of one Converge per task with a reorg of block 2 -> PruneTask; DASHBOARD: every string leaf of each integration as submitted to web.Handler.SaveIntegration (others pre-stored) and every form value of SaveSource -> Manager.Restart -> runner threads to stop=3 with the same reorg; " +
 			"CHAIN: 11 chain-data positions x 9 markers on the benign configuration. A case is non-trivial when the variant was rejected by validation or accepted and executed; distinct = distinct (mode, position, marker, form).",
 		Assumptions: []string{
@@ -45,6 +48,7 @@ func init() {
 			"dashboard integrations are submitted in the form the validated configuration has (identity columns/fields present, top-level filter_ref.table filled in): shovel applies neither AddRequiredFields nor ValidateFilterRefs to stored integrations, so a working submission must carry them; the tables were created beforehand (the dashboard never migrates)",
 			"variants whose source URL does not parse end the real process (jrpc2.MustURL → os.Exit) before any hostile SQL; they are classified exit:url-parse without execution",
 			"a bare metacharacter cannot be searched for in SQL (every statement has quotes and parentheses) and a disabled dashboard submission issues no SQL of its own: both are judged by consistency — accepted although the identifier check rejects the same substitution as a whole marker / in an enabled integration = check bypassed",
+			"the fake Postgres normalises jsonb like PostgreSQL (duplicate keys: last wins; keys ordered by length, then bytes), so what is read back from shovel.integrations is what a real database would return",
 			"sequential executions (one controlled thread at a time, no preemption): the property is about SQL text, not interleavings",
 			"panics of the code under test provoked by a variant (e.g. a dashboard submission with a column on a tuple input, or filter_ref.integration on a numeric field without filter_arg) are not SQL text: they are recorded as outcomes observed-panic:<path>:<position> and never judged by this check",
 		},
@@ -114,6 +118,16 @@ func c15Jobs(thorough bool) ([]c15Case, error) {
 		stringLeaves(tree, nil, &ils)
 		for _, l := range ils {
 			for m := range c15Markers {
+				// duplicate / case-variant keys: identifier-like leaves with two markers (thorough: all
+				// markers; every other leaf with one marker)
+				idl := c15IdentifierLike(l.Path)
+				if (idl && (thorough || m == 0 || m == 8)) || (!idl && thorough && m == 0) {
+					for d := 1; d <= 8; d++ {
+						if _, _, ok := dupVariant(tree, l.Path, "x", d); ok {
+							jobs = append(jobs, c15Case{Mode: "dash-dup", IG: k, Path: l.Path, Marker: m, Dup: d})
+						}
+					}
+				}
 				for _, f := range formsFor(l.Path, l.Val) {
 					jobs = append(jobs, c15Case{Mode: "dash-ig", IG: k, Path: l.Path, Marker: m, Form: f})
 					if (f == 0 || (thorough && f == 5)) && (thorough || c15IdentifierLike(l.Path)) {
@@ -286,6 +300,17 @@ func c15ExecOne(k c15Case, probe bool) (res c15Res, pos string, variant string) 
 			return c15Res{outcome: "exit:env-placeholder"}, pos, variant
 		}
 		return c15DashExec(dashReq{Kind: "integration", IG: k.IG, Body: toJSON(tree), Probe: probe}, benignChains(), needles), pos, variant
+	case "dash-dup":
+		if err := c15PrepareBenign(); err != nil {
+			return c15Res{harness: err.Error()}, "", ""
+		}
+		v := c15Variant("", k.Marker, 0)
+		doc, desc, ok := dupVariant(c15Benign.igTrees[k.IG], k.Path, v, k.Dup)
+		if !ok {
+			return c15Res{harness: fmt.Sprintf("no duplicate-key variant %d at %v", k.Dup, k.Path)}, "", ""
+		}
+		return c15DashExec(dashReq{Kind: "integration", IG: k.IG, Body: toJSON(doc), Probe: probe}, benignChains(), needles), "dupkey:" + posClass(k.Path),
+			fmt.Sprintf("POST /save-integration of %s with %s = %s — %s", c15Benign.conf.Integrations[k.IG].Name, strings.Join(k.Path, "."), toJSON(v), desc)
 	case "dash-src":
 		form := map[string]string{}
 		for f, v := range c15SrcForm {
@@ -308,7 +333,7 @@ func c15ExecOne(k c15Case, probe bool) (res c15Res, pos string, variant string) 
 
 func modeTag(mode string) string {
 	switch mode {
-	case "dash-ig", "dash-src", "dash-linked":
+	case "dash-ig", "dash-src", "dash-linked", "dash-dup":
 		return "dashboard"
 	case "file-linked":
 		return "file"
